@@ -160,7 +160,14 @@ func c15CheckProve(c c15ProveCase) h.Result {
 		ent = ent[:c.Short]
 		r.Class("entropy-short")
 	}
-	rd := &h.C15Reader{Data: ent, Chunk: c.Chunk}
+	// a quarter of the streams hold exactly the 32 bytes the construction
+	// hashes and end with data+EOF in the same Read (legal for an io.Reader)
+	exact := c.Short == 0 && len(ent) >= 32 && ent[0]&3 == 3
+	if exact {
+		ent = ent[:32]
+		r.Class("entropy-exactly-32-bytes-then-EOF-with-data")
+	}
+	rd := &h.C15Reader{Data: ent, Chunk: c.Chunk, EOFData: exact}
 	r.Eval(4)
 	piR, err := fn.proveR(rd, sk, alpha)
 	if c.Short > 0 {
@@ -198,7 +205,10 @@ func c15CheckProve(c c15ProveCase) h.Result {
 	for i := range ent2 {
 		ent2[i] = ^c.Entropy[i]
 	}
-	piR2, err := fn.proveR(&h.C15Reader{Data: ent2, Chunk: c.Chunk}, sk, alpha)
+	if exact {
+		ent2 = ent2[:32]
+	}
+	piR2, err := fn.proveR(&h.C15Reader{Data: ent2, Chunk: c.Chunk, EOFData: exact}, sk, alpha)
 	if err != nil {
 		return r.Fail("ecvrf.ProveWithAddedRandomness"+fn.name+":spurious-error", "chunk=%d: %v", c.Chunk, err).Result()
 	}
